@@ -251,6 +251,11 @@ func (c *CheckCtx) run(verbose bool) int {
 			structural = append(structural, Finding{Obligation: key + "#subset", What: "construct outside the verified subset: " + m})
 		}
 		if fc != nil {
+			for _, cs := range fc.Callsites {
+				if !cs.used {
+					structural = append(structural, Finding{Obligation: fmt.Sprintf("%s#callsite[%s]", key, cs.Callee), What: fmt.Sprintf("UNBOUND contract line: no call %s in %s", cs.Callee, key)})
+				}
+			}
 			for ord, ls := range fc.Loops {
 				if !ls.used {
 					structural = append(structural, Finding{Obligation: fmt.Sprintf("%s#loop[%d]", key, ord), What: fmt.Sprintf("UNBOUND contract line: loop[%d] of %s does not exist in the code", ord, key)})
